@@ -60,7 +60,7 @@ type Actor struct {
 
 	// extension side
 	ExtName    string
-	RegName    string // name it registered under (accepted, last)
+	RegName    string   // name it registered under (accepted, last)
 	Regs       []RegRec // every accepted registration issued by this actor
 	Internal   bool
 	ExtID      string
